@@ -395,13 +395,27 @@ def r_C14inst(root):
     rep_fn = find(t, Q + "_replace_user_attr_methods"); res_fn = find(t, Q + "_restore_user_attr_methods")
     fns = {k: v for k, v in helper_functions(root, M, Q + "_replace_user_attr_methods").items() if k.startswith("_") and not k.startswith("__")}
     def fresh():
-        U = pyeval.ClassObj("U", {"__setattr__": "U's own __setattr__", "_tx_obj_attrs": {}, "_tx_fqn": "ns.U"})
+        def own_setattr(*a):
+            # U's own __setattr__(self, name, value), reached through the class: called with (name, value) only it is a TypeError, as in Python
+            if len(a) != 3: raise pyeval.Raised("TypeError", "missing 1 required positional argument")
+            a[0].own[a[1]] = a[2]
+        U = pyeval.ClassObj("U", {"__setattr__": pyeval.PyFn(own_setattr), "_tx_obj_attrs": {}, "_tx_fqn": "ns.U"})
         V = pyeval.ClassObj("V", {"_tx_obj_attrs": {}, "_tx_fqn": "ns.V"}, bases=[U])
         mm = {".kind": "metamodel", ".user_classes": {"U": U, "V": V}}
         return U, V, mm
     def snapshot(*cs): return [dict(c.own) for c in cs]
     def call(fn, self_):
-        env = {"__functions__": fns, fn.args.args[0].arg: self_}
+        def super_(c, o):
+            def ga(n):
+                if n in o.own: return o.own[n]
+                f_, v_ = o.cls.lookup(n)
+                if f_: return v_
+                raise pyeval.Raised("AttributeError")
+            def da(n):
+                if n not in o.own: raise pyeval.Raised("AttributeError")
+                del o.own[n]
+            return {".__getattribute__": pyeval.PyFn(ga), ".__setattr__": pyeval.PyFn(lambda n, v: o.own.__setitem__(n, v)), ".__delattr__": pyeval.PyFn(da)}
+        env = {"__functions__": fns, fn.args.args[0].arg: self_, "super": pyeval.PyFn(super_)}
         try: pyeval.run_block(fn.body, env); return None
         except pyeval.Raised as r_: return "raises " + r_.cls
         except pyeval.Unsupported as u_: raise AnalysisError("%s: outside the evaluated subset: %s" % (fn.name, u_))
@@ -438,6 +452,24 @@ def r_C14inst(root):
     rep(not any(errs) and instrumented(U, i0[0]) and instrumented(V, i0[1]), "C14.j", "a repeated restore of the same parser is a no-op", "replace(p1) replace(p2) restore(p2) restore(p2): the second restore of p2 counts again and the user classes are %s while p1 is still loading%s" % (describe((U, V), i0), "".join("; " + e for e in errs if e)))
     e3 = call(res_fn, p1)
     rep(e3 is None and snapshot(U, V) == i0, "C14.j", "... and the outer restore still leaves the classes as they were", "after restore(p1) the user classes are not as before (%s%s)" % (describe((U, V), i0), "; " + e3 if e3 else ""))
+    # 5. what the installed methods do while a model is loading
+    U, V, mm = fresh(); i0 = snapshot(U, V); p1 = parser(mm)
+    e1 = call(rep_fn, p1)
+    ga, sa, da = U.own.get("__getattribute__"), U.own.get("__setattr__"), U.own.get("__delattr__")
+    if e1 is None and all(callable(x) for x in (ga, sa, da)):
+        o = pyeval.InstObj(U); col = {"name": "n1", "kids": ["k"]}; U.own["_tx_obj_attrs"][id(o)] = col
+        o2 = pyeval.InstObj(U); o2.own["real"] = "r"               # an object of the class that is not being loaded (created by the user meanwhile)
+        def tryc(f, *a):
+            try: return ("ret", f(*a))
+            except pyeval.Raised as r_: return ("raise", r_.cls)
+            except pyeval.Unsupported as u_: raise AnalysisError("instrumented attribute methods: outside the evaluated subset: %s" % u_)
+        r1 = tryc(ga, o, "name"); r2 = tryc(ga, o, "__dict__"); r3 = tryc(sa, o, "extra", 5); st3 = col.get("extra"); r4 = tryc(da, o, "extra"); st4 = "extra" in col
+        r5 = tryc(ga, o2, "real"); r6 = tryc(sa, o2, "more", 1); r7 = tryc(ga, o, "missing")
+        okm = r1 == ("ret", "n1") and r2[0] == "ret" and r2[1] is col and r3[0] == "ret" and st3 == 5 and r4[0] == "ret" and not st4 and "extra" not in o.own and r5 == ("ret", "r") and r6[0] == "ret" and o2.own.get("more") == 1 and r7[0] == "raise"
+        rep(okm, "C14.p", "the installed attribute methods read, list, write and delete the attributes collected for an object under construction",
+            "while a model is loading, for an object with the collected attributes {name, kids}: reading name gives %s, __dict__ gives %s, setting / deleting an attribute %s; an object of the class that is not under construction reads %s, and a missing attribute %s; documented: reads and __dict__ answer from the collected attributes (scope providers enumerate obj.__dict__), writes and deletes go to the collected attributes, other objects behave normally, a missing attribute is an AttributeError" % (r1, "the collected attributes" if r2[0] == "ret" and r2[1] is col else r2, "is stored / removed there" if st3 == 5 and not st4 else "is not reflected in the collected attributes", r5, "raises " + r7[1] if r7[0] == "raise" else "gives %r" % (r7[1],)))
+    else: rep(False, "C14.p", "attribute methods installed", "after _replace_user_attr_methods the user class has no callable __getattribute__ / __setattr__ / __delattr__ of the loader (%s)" % (e1 or "missing"))
+    call(res_fn, p1)
     # 4. restore of a parser that never replaced
     U, V, mm = fresh(); i0 = snapshot(U, V); p1, p3 = parser(mm), parser(mm)
     errs = [call(rep_fn, p1), call(res_fn, p3)]
